@@ -688,6 +688,24 @@ func (c *Ctx) globalShare() {
 				if immutableGlobalType(ld.Type()) {
 					continue
 				}
+				// an injectable entropy source: a reader variable that is initialised with
+				// crypto/rand.Reader, which is safe for concurrent use
+				if iv := GlobalInit(g); iv != nil {
+					for {
+						if mi, ok := iv.(*ssa.MakeInterface); ok {
+							iv = mi.X
+							continue
+						}
+						if ci, ok := iv.(*ssa.ChangeInterface); ok {
+							iv = ci.X
+							continue
+						}
+						break
+					}
+					if ig := loadOfGlobal(iv); ig != nil && ig.Pkg != nil && ig.Pkg.Pkg.Path() == "crypto/rand" {
+						continue
+					}
+				}
 				n++
 				gname := Short(g.Pkg.Pkg.Path()) + "." + g.Name()
 				if how, at := escapes(ld, 0); how != "" {
